@@ -101,7 +101,7 @@ def run_mc(rep: Report, sel: str, maxops: int, nparts: int, dump: bool, coverage
     (same bounds); per-action edge counts of the whole run are measured either way."""
     d = OUT / f"cfg-{uuid.uuid4().hex[:8]}"
     d.mkdir(parents=True, exist_ok=True)
-    jvm = ["-Xmx3g", "-XX:ParallelGCThreads=2"]
+    jvm = ["-Xmx3g", "-Xss64m", "-XX:ParallelGCThreads=2"]
     jobs = []
     for p in range(nparts):
         f = d / f"MC_{sel}_{p}.cfg"
